@@ -383,7 +383,7 @@ def load_supplemental_sources(config, config_dir):
         # Parse the CSV file into row dicts
         rows = []
         try:
-            with open(filepath, 'r', encoding='utf-8', errors='replace') as f:
+            with open(filepath, 'r', encoding='utf-8-sig', errors='replace') as f:
                 # Handle delimiter: None means comma (default)
                 delimiter = format_spec.delimiter
                 if delimiter == 'tab':
